@@ -36,6 +36,12 @@ class C20bPart:
         "oracle: the state machine of the gortsplib v5 server session (Model/C20b_SessionHooks.v `gortsplib`, "
         "transliterated from server_session.go) - the driver ships rsession.State() before/after every request and the "
         "check compares it with the automaton on every run",
+        "in-package Go driver harness/inpkg/internal/servers/hls/zz_verif_c20hls_test.go (real hls.Server, muxers and "
+        "sessions; requests through the server's own gin handler; fake path manager that holds every session inside "
+        "AddReader until released; captured logger; expiry by ageing lastRequestTime and waiting for the muxer's own "
+        "cleanup ticker) and model Model/C20b_HlsMux.v (hand-written transliteration of the multivariant-playlist branch "
+        "of http_server.go onRequest, session.initialize / close2, muxer.addSession / cleanup / kick / crash / destroy), "
+        "tied by per-operation, per-session comparison of the hook lines on every run",
         "model Model/C20b_SessionHooks.v hand-written (transliteration of rtsp/session.go onPlay/onPause/onClose, "
         "rtsp/conn.go, rtsp/server.go APISessionsKick, hls/session.go + hls/muxer.go), pinned to the sources by the "
         "setter / invoker / caller lists of the generated site table",
@@ -46,8 +52,12 @@ class C20bPart:
         "requests the library refuses before calling a handler change nothing (stutter steps, not represented)",
         "shape (a) sites (defer x() / straight-line x()): the body between hook and closure does not call the same hook "
         "again (checked syntactically: the closure variable has exactly two uses)",
-        "HLS: model and theorems only (no HLS driver); the two refuting interleavings are races between the HTTP "
-        "handler and the muxer / server goroutines and are not replayed",
+        "HLS, session level (hl_step): the two refuting interleavings (close2 between addSession and the assignment "
+        "of the hook; kick after 'muxer destroyed') are races between the HTTP handler and the muxer / server "
+        "goroutines and are not replayed - the HLS driver releases held sessions one at a time and waits for each answer",
+        "HLS, muxer level (Model/C20b_HlsMux.v): whether a released request is admitted (getMuxer / addSession succeed: "
+        "muxer present, instance available, server open) is an oracle shipped by the driver (HTTP status 200); one path "
+        "per server; Go's map order among sessionsBySecret is not modelled (lines are compared per session)",
     ]
     manifest_b = dict(
         text="Per reader / per connection: Coq theorems for ALL request sequences over {announce, setup, play, record, "
@@ -57,10 +67,21 @@ class C20bPart:
              "ended, same for the log lines under every runOnRead/runOnUnread setting; RTSP connection hook likewise; "
              "defer/straight-line sites (RTMP, SRT, WebRTC, runOnInit) by a structural lemma; every hooks.OnXxx mention "
              "of the tree is listed by a go/ast pass and must be of a modelled shape (forallb site_ok hook_sites by "
-             "vm_compute). Tied to the code by an in-package RTSP driver sending random request sequences.",
+             "vm_compute). Tied to the code by an in-package RTSP driver sending random request sequences. HLS front "
+             "end, muxer level: for ALL schedules of playlist requests (ordinary / CDN, several held together inside "
+             "pathManager.AddReader and released in any order), idle expiries, API kicks and losses of all sessions "
+             "(instance failure, muxer close, Server.Close), every session's OnRead calls are well-formed pairs, the "
+             "pair is open exactly while the muxer can reach the session (cdnSession / sessionsBySecret), and none is "
+             "open after the muxer dropped its sessions (C20_hls_reader_pairs, C20_hls_reader_closed_after_close); a "
+             "muxer that replaces the CDN session without close2() is refuted. Tied to the code on every run by an "
+             "in-package driver on a real hls.Server (18 server lives: concurrent first CDN requests, mixed concurrent "
+             "requests, sequential CDN requests served by the existing session, expiry, kick, instance crash of both "
+             "muxer kinds, muxer close then new muxer, late releases after Server.Close; runOnRead/runOnUnread "
+             "both / only one set), each admitted reader judged by: one start line, start/stop alternate, one closing "
+             "line after Server.Close.",
         note="Refuted (with witnesses, theorems *_refuted, partial theorems with explicit guards): RTSP API kick "
              "overlapping a PAUSE stops the reader hook twice (replayed on every run, KNOWN finding); HLS session "
-             "reachable by the muxer before its hook is assigned, and closed twice after 'muxer destroyed' (model only). "
+             "reachable by the muxer before its hook is assigned, and closed twice after 'muxer destroyed' (session-level model only, not driven). "
              "MoQ readers have no runOnRead at all. Child processes are not observed.")
 
     # ---- translator --------------------------------------------------------------------------------------------------
